@@ -232,20 +232,22 @@ impl Memfs {
         // Validate path components
         let dir = path.dir()?;
         if let Some(entry) = guard.get_entry(&dir) {
-            if !entry.is_dir() {
+            if !entry.is_dir() || entry.is_symlink() {
                 return Err(PathError::is_not_dir(dir).into());
             }
         } else {
             return Err(PathError::does_not_exist(dir).into());
         }
 
-        // Validate the path itself
+        // Validate the path itself, links are never mistaken for what they point to
         if let Some(x) = guard.get_entry(&path) {
-            if entry.is_file() && !x.is_file() {
+            if entry.is_symlink() {
+                if !x.is_symlink() {
+                    return Err(PathError::is_not_symlink(&path).into());
+                }
+            } else if entry.is_file() && (!x.is_file() || x.is_symlink()) {
                 return Err(PathError::is_not_file(&path).into());
-            } else if entry.is_symlink() && !x.is_symlink() {
-                return Err(PathError::is_not_symlink(&path).into());
-            } else if entry.is_dir() && !x.is_dir() {
+            } else if entry.is_dir() && (!x.is_dir() || x.is_symlink()) {
                 return Err(PathError::is_not_dir(&path).into());
             }
         } else {
